@@ -323,7 +323,13 @@ OnStatus(S, m, e) ==
       a16 == Check(a15, "CompleteHasAllResults",
                    becameComplete /\ FaultFree(m) /\ ~AnyDry(S) /\ ~m.cancelSeen /\ ~e.canceled /\ Acyclic(S) /\ m.epoch = 0,
                    J \subseteq rows)
-      a17 == Check(a16, "SummaryBeforeFlag", becameComplete, m.summaries >= 1)
+      \* ... "has a result" as the user sees it: the summary written before the flag lists every job, none missing (a row
+      \* that sits uncollected in a node file when the flag is set is never collected afterwards)
+      a16b == Check(a16, "CompleteSummaryHasAll",
+                    becameComplete /\ FaultFree(m) /\ ~AnyDry(S) /\ ~m.cancelSeen /\ ~e.canceled /\ Acyclic(S) /\ m.epoch = 0
+                      /\ m.summaries >= 1,
+                    m.lastSummary.missing = <<>> /\ {m.lastSummary.res[k][1] : k \in 1..Len(m.lastSummary.res)} = J)
+      a17 == Check(a16b, "SummaryBeforeFlag", becameComplete, m.summaries >= 1)
       a18 == Check(a17, "CompleteOnce", becameComplete, m.completions = 0)
       a18b == Check(a18, "TeardownBeforeCompleteFlag", becameComplete /\ S.hooks.teardown, HookCount(m, "teardown", -1) = 1)
       a19 == Check(a18b, "NoIdleLeftover",
@@ -396,7 +402,11 @@ OnSummary(S, m, e) ==
                    \A j \in J : S.ref[j] \in {"successful", "failed"} => m.launches[j] >= 1)
       a9 == Check(a8b, "FinalPlacement", allran /\ full /\ m.epoch = 0 /\ S.mode = "hpc",
                   \A j \in J : IF cls(j) = "canceled" THEN Cardinality(m.placed[j]) <= 1 ELSE Cardinality(m.placed[j]) = 1)
-      a10 == Check(a9, "AllRowsReported", allran /\ S.mode = "hpc",
+      \* C01's last sentence without assuming complete results: in a completed fault-free submission every job was handed
+      \* over in a batch or has a canceled entry -- none was silently left out
+      a9b == Check(a9, "PlacedOrCanceled", allran /\ m.epoch = 0 /\ S.mode = "hpc" /\ IsInj(names),
+                   \A j \in J : m.placed[j] # {} \/ (j \in nset /\ cls(j) = "canceled"))
+      a10 == Check(a9b, "AllRowsReported", allran /\ S.mode = "hpc",
                   \A r \in m.appended : (r[3] = "finished" => r \in m.reported))
       \* C11: after a transient failure of the scheduler's status query the following rounds proceed normally --
       \* the run ends with the same complete results as a run without that failure
@@ -512,7 +522,8 @@ MonSteps(S, m, es) == IF es = <<>> THEN m ELSE MonSteps(S, MonStep(S, m, Head(es
 -----------------------------------------------------------------------------
 \* The properties: which clauses make up each listed property.
 ClausesOf(c) ==
-  CASE c = "C01" -> {"OnePlacement", "FreshBatchIndex", "OneLaunch", "FinalPlacement", "SbatchMatchesConfig", "LaunchInOwnBatch", "LaunchKnownJob"}
+  CASE c = "C01" -> {"OnePlacement", "FreshBatchIndex", "OneLaunch", "FinalPlacement", "SbatchMatchesConfig", "LaunchInOwnBatch", "LaunchKnownJob",
+                     "PlacedOrCanceled"}
     \* (the hand-over is C02's second mechanism: a node starts a job as soon as the list it was handed is empty, so a batch
     \*  whose list omits a blocker without an outcome starts that job too early in some schedule)
     [] c = "C02" -> {"StartAfterBlockers", "HandoverCoversUnfinished"}
@@ -520,7 +531,7 @@ ClausesOf(c) ==
     [] c = "C04" -> {"CanceledShape", "CanceledNeverRuns", "CanceledOnlyIf", "CanceledIff", "RanExactlyOnceUnlessCanceled",
                      "NotCanceledRuns"}
     [] c = "C05" -> {"QuiescentRoundProgress", "NoIdleLeftover", "CompleteHasAllResults", "SummaryBeforeFlag", "CompleteOnce",
-                     "SummaryOnlyBeforeFlag", "NodeRoundAfterBatch",
+                     "SummaryOnlyBeforeFlag", "NodeRoundAfterBatch", "CompleteSummaryHasAll",
                      "NoSbatchAfterComplete", "CompletesAfterRecovery"}
     [] c = "C06" -> {"NodesBound", "ProcsBound"}
     [] c = "C07" -> {"BatchNonEmpty", "BatchJobsKnown", "OneGroup", "BatchSizeOrTime", "BlockedOnlyWithAllBlockers",
